@@ -391,3 +391,52 @@ class PiecewiseLinearMap(Contract):
         return eq(r, a.v + val(a._b) - a._b)
 
     ensures = [prop("piecewise-linear-semantics", lambda a, old, r: PiecewiseLinearMap._post(a, r))]
+
+
+# -- VariationModel: deltas <-> masters ----------------------------------------------------------
+
+def _model(mod, S, n, perm):
+    """A VariationModel shell with n masters, a full lower-triangular delta-weight system with
+    symbolic weights and the given master permutation (reverseMapping)."""
+    cls = mod.VariationModel
+    m = cls.__new__(cls)
+    m.deltaWeights = [{j: S.real("w%d_%d" % (i, j)) for j in range(i)} for i in range(n)]
+    m.reverseMapping = list(perm)
+    return m
+
+
+@contract
+class GetDeltas(Contract):
+    """getDeltas solves the unit-lower-triangular system: for every i,
+    masterValues[reverseMapping[i]] == out[i] + sum_j out[j] * deltaWeights[i][j]."""
+    module = "fontTools.varLib.models"
+    qualname = "VariationModel.getDeltas"
+    props = ("C09", "C10")
+    variants = ((1, (0,)), (2, (0, 1)), (2, (1, 0)), (3, (0, 1, 2)), (3, (2, 0, 1)), (4, (1, 3, 0, 2)))
+    level = "PF"
+    assumptions = ("A-REAL",)
+
+    def args(self, S, variant):
+        n, perm = variant
+        return dict(self=_model(self.mod, S, n, perm), masterValues=[S.real("m%d" % i) for i in range(n)])
+
+    ensures = [prop("masters-are-recovered-from-deltas", lambda a, old, r: len(r) == len(a.masterValues) and And(*[
+        eq(a.masterValues[a.self.reverseMapping[i]],
+           r[i] + sum((r[j] * w for j, w in a.self.deltaWeights[i].items()), 0))
+        for i in range(len(r))]))]
+
+
+@contract
+class InterpolateFromValuesAndScalars(Contract):
+    module = "fontTools.varLib.models"
+    qualname = "VariationModel.interpolateFromValuesAndScalars"
+    props = ("C09", "C10", "C05")
+    variants = (1, 2, 3, 4)
+    level = "PF"
+    assumptions = ("A-REAL",)
+
+    def args(self, S, variant):
+        return dict(values=[S.real("v%d" % i) for i in range(variant)], scalars=[S.real("s%d" % i) for i in range(variant)])
+
+    ensures = [prop("weighted-sum", lambda a, old, r: eq(
+        0 if r is None else r, sum((v * s for v, s in zip(a.values, a.scalars)), 0)))]
